@@ -155,6 +155,21 @@ CHECKS["C06"] = dict(
         "derivative' for nonlinear operators is a limit statement: decided as difference-quotient form + step window.",
    ref="§6 C06")
 
+CHECKS["C07"] = dict(
+   technique="contract-based deductive verification: loop-invariant rule applied to the real loop bodies of "
+             "timemodel._solve taken from the ast (prologue, generic main-loop iteration, generic save-loop iteration), "
+             "step/calc_timestep through their contracts with ghost call logs; step time advance from the executed steps; z3",
+   text="Proof for all strictly increasing save-time lists of any length (symbolic), any start time, stop = default / maxit / "
+        "tottime / both, global and local time step, explicit and implicit families, symbolic ncell: each explicit "
+        "integrator advances time by dt / min(dt) (implicit: C06); the prologue copies the caller's field (never touched), "
+        "serves a save time equal to the start time with the initial state and establishes the invariant 'pending save "
+        "time strictly ahead'; a generic iteration takes exactly one full step of size min(dt) (or the local array) from a "
+        "copy of the trajectory state, counts it, serves every save time reached by this step by a forward sub-step "
+        "0<d<=min(dt) from a copy, stamps it with the requested time and the iteration, preserves the invariant, and "
+        "evaluates the stop criteria on the new state; with the default stop all save times are served at exit.",
+   note=TB + "; termination of the loops is not proved; monitors/flush off here (C08).",
+   ref="§6 C07")
+
 NA = {
  "C04": "convergence of a solve at the design order under mesh refinement is a limit statement over a family of meshes "
         "(and an empirical one for Riemann problems; the reference solutions wrap the external aerokit): no pre/postcondition "
